@@ -114,7 +114,7 @@ Record frame := mkFrame { fr_src : N; fr_dst : N; fr_off : N; fr_clo : option N 
 Record state := mkState {
   st_stack : vstack value;          (* ValueStack incl. dead slots (Stacks.v) *)
   st_calls : list frame;            (* BoundedStack<CallFrame>, head = top *)
-  st_globals : list value;
+  st_globals : list (option value); (* Vec<Option<Value>>: None = never assigned (a526e90) *)
   st_heap : heap;
   st_open : option N;               (* head of the open-upvalue list *)
   st_log : list (list tval);        (* host log written by the menu natives (auxiliary data) *)
@@ -132,7 +132,7 @@ Definition set_stack (s : state) (k : vstack value) : state :=
   mkState k (st_calls s) (st_globals s) (st_heap s) (st_open s) (st_log s) (st_count s) (st_rem s).
 Definition set_calls (s : state) (c : list frame) : state :=
   mkState (st_stack s) c (st_globals s) (st_heap s) (st_open s) (st_log s) (st_count s) (st_rem s).
-Definition set_globals (s : state) (g : list value) : state :=
+Definition set_globals (s : state) (g : list (option value)) : state :=
   mkState (st_stack s) (st_calls s) g (st_heap s) (st_open s) (st_log s) (st_count s) (st_rem s).
 Definition set_heap (s : state) (h : heap) : state :=
   mkState (st_stack s) (st_calls s) (st_globals s) h (st_open s) (st_log s) (st_count s) (st_rem s).
@@ -842,9 +842,27 @@ Definition set_table (s : state) (a : N) (t : table) : state :=
 Definition str_key : list N := [107; 101; 121]%N.
 Definition str_value : list N := [118; 97; 108; 117; 101]%N.
 
-(* ---- stdlib natives (stdlib.rs). The iteration over the table is taken as a snapshot when the native starts;
-   a key function that mutates the table it is iterated over is outside the model (in the crate it would
-   invalidate the borrowed iterator). ---- *)
+(* ---- stdlib natives (stdlib.rs). 662697a: min / max / sorted work on a private copy of the table
+   ([snapshot]: a new table object allocated through vm.init_table and filled from t.iter()) taken before the
+   first call of the key function; the key function cannot reach the copy, so the copy read when the native
+   starts is the one used to the end.  (The pinned tree iterated the live table, R-1.) ---- *)
+Fixpoint insert_pairs (eq : eqfun) (t : table) (l : list (value * value)) : option table :=
+  match l with
+  | [] => Some t
+  | (k, v) :: r => match tinsert eq t k v with Some t' => insert_pairs eq t' r | None => None end
+  end.
+(* stdlib.rs snapshot(vm, t); None = native recursion of hash / == on a cyclic key *)
+Definition snapshot (s : state) (t : table) : option (state * table) :=
+  match titer (veq0 (st_heap s)) t with
+  | None => None
+  | Some l =>
+      let '(s1, c) := salloc s (OTable (mkTable [] [])) in
+      match insert_pairs (veq0 (st_heap s1)) (mkTable [] []) l with
+      | None => None
+      | Some ct => Some (set_table s1 c ct, ct)
+      end
+  end.
+
 Section StdNatives.
   Variable self : N -> state -> nres.
 
@@ -897,7 +915,10 @@ Section StdNatives.
     | VObj a =>
         match hget (st_heap s) a with
         | Some (OTable t) =>
-            match titer (veq0 (st_heap s)) t with
+          match snapshot s t with
+          | None => NStop ACrash s
+          | Some (s, entries) =>
+            match titer (veq0 (st_heap s)) entries with
             | None => NStop ACrash s
             | Some [] => NOk VNil s
             | Some ((k0, v0) :: rest) =>
@@ -912,14 +933,10 @@ Section StdNatives.
                             match minmax_go less key_fn rest 1 0 key0 s3 with
                             | MMFail r => r
                             | MMOk i s4 =>
-                                match hget (st_heap s4) a with
-                                | Some (OTable t') =>
-                                    let k := tnth_key t' i in
-                                    match tget (veq0 (st_heap s4)) t' k with
-                                    | None => NStop ACrash s4
-                                    | Some r => make_row s4 k (match r with Some v => v | None => VNil end)
-                                    end
-                                | _ => NStop AUB s4
+                                let k := tnth_key entries i in
+                                match tget (veq0 (st_heap s4)) entries k with
+                                | None => NStop ACrash s4
+                                | Some r => make_row s4 k (match r with Some v => v | None => VNil end)
                                 end
                             end
                         | r => r
@@ -927,6 +944,7 @@ Section StdNatives.
                     end
                 end
             end
+          end
         | Some _ => NOk iterable s
         | None => NStop AUB s
         end
@@ -1008,7 +1026,10 @@ Definition native_sorted (self : N -> state -> nres) (iterable key_fn : value) (
   | VObj a =>
       match hget (st_heap s) a with
       | Some (OTable t) =>
-          match titer (veq0 (st_heap s)) t with
+        match snapshot s t with
+        | None => NStop ACrash s
+        | Some (s, entries) =>
+          match titer (veq0 (st_heap s)) entries with
           | None => NStop ACrash s
           | Some l =>
               match sort_keys self key_fn l s with
@@ -1025,6 +1046,7 @@ Definition native_sorted (self : N -> state -> nres) (iterable key_fn : value) (
                   end
               end
           end
+        end
       | Some _ => NOk iterable s
       | None => NStop AUB s
       end
@@ -1367,8 +1389,8 @@ Definition i_17 (opc ip0 ip : N) (s : state) : sres := (* SetGlobalVar *)
       let '(s1, v) := spop s in
       let i := N.to_nat id in
       let g := st_globals s1 in
-      let g' := if length g <=? i then g ++ repeat VNil (S i - length g) else g in
-      SNext (ip + 4) (set_globals s1 (upd g' i v))
+      let g' := if length g <=? i then g ++ repeat None (S i - length g) else g in
+      SNext (ip + 4) (set_globals s1 (upd g' i (Some v)))
   end.
 
 Definition i_18 (opc ip0 ip : N) (s : state) : sres := (* ReadGlobalVar *)
@@ -1376,9 +1398,11 @@ Definition i_18 (opc ip0 ip : N) (s : state) : sres := (* ReadGlobalVar *)
   | None => SStop APanic s
   | Some id =>
       let ip := (ip + 4)%N in
+      (* a526e90: `.get(varid).copied().flatten()` - a slot that was only padded is VarNotFound too
+         (the pinned tree padded with nil: a never-assigned global below an assigned one read nil, R-5) *)
       match nth_error (st_globals s) (N.to_nat id) with
-      | Some v => push_next ip s v
-      | None => SErr (EVarNotFound (Some (match assoc (handle_from_u32 id) (p_var_names P) with
+      | Some (Some v) => push_next ip s v
+      | _ => SErr (EVarNotFound (Some (match assoc (handle_from_u32 id) (p_var_names P) with
                                            | Some nm => nm
                                            | None => unknown_var_name
                                            end))) ip s
@@ -1652,8 +1676,11 @@ Definition i_39 (opc ip0 ip : N) (s : state) : sres := (* NthRow: i, instance ar
       | VInt i =>
           if (i <? 0)%Z then SErr EInvalidArgument ip s2
           else
-            let key := tnth_key t (Z.to_nat i) in
-            match tget (veq0 (st_heap s2)) t key with
+            (* 6d4c9a8: a row past the end is (nil, nil) whatever is stored under the key nil
+               (the pinned tree looked the value up under nth_key's nil, R-3) *)
+            let inside := (i <? Z.of_nat (length (tkeys t)))%Z in
+            let key := if inside then tnth_key t (Z.to_nat i) else VNil in
+            match (if inside then tget (veq0 (st_heap s2)) t key else Some None) with
             | None => SStop ACrash s2
             | Some r =>
                 let val := match r with Some v => v | None => VNil end in
@@ -1816,14 +1843,25 @@ Definition i_45 (opc ip0 ip : N) (s : state) : sres := (* RegisterUpvalue *)
   | _, _ => SStop APanic s
   end.
 
+(* CloseUpvalue index:u32 (d723a2c): closes every open upvalue whose slot is at or above local [index]
+   of the current frame, `as_ptr().wrapping_add(offset + index)`; the base pointer of the stack is never
+   null, so the "empty stack" branch of _close_upvalues is dead; nothing is popped.
+   (The pinned tree had no operand and closed from the top slot only, R-2.) *)
 Definition i_46 (opc ip0 ip : N) (s : state) : sres := (* CloseUpvalue *)
-  if scount s =? 0 then SErr EInvalidArgument ip s
-  else
-    match close_upvalues_from (scount s - 1) s with
-    | ClOk s1 => SNext ip s1
-    | ClErr e s1 => SErr e ip s1
-    | ClStop a s1 => SStop a s1
-    end.
+  match op_u32 ip with
+  | None => SStop APanic s
+  | Some idx =>
+      let ip := (ip + 4)%N in
+      match top_offset s with
+      | None => SStop APanic s
+      | Some off =>
+          match close_upvalues_from (off + N.to_nat idx) s with
+          | ClOk s1 => SNext ip s1
+          | ClErr e s1 => SErr e ip s1
+          | ClStop a s1 => SStop a s1
+          end
+      end
+  end.
 
 (* [ip0] = address of the opcode, [ip] = ip0 + 1 *)
 Definition step (ip0 : N) (s : state) : sres :=
@@ -2009,5 +2047,5 @@ Definition run_flat (F : fops) (bld : build) (budget : nat) (P : program) (s : s
 Definition read_var_by_name (P : program) (s : state) (name : list N) : option value :=
   match assoc (handle_of_bytes name) (p_var_ids P) with
   | None => None
-  | Some id => nth_error (st_globals s) (N.to_nat id)
+  | Some id => match nth_error (st_globals s) (N.to_nat id) with Some o => o | None => None end
   end.
